@@ -12,7 +12,7 @@ an ideal sequence `xs` answers (`some x₀, …, none, none, …`); `outsD` / `i
 arbitrary sequences of `next` (`true`) and `next_back` (`false`) calls; `pullN c m s` = final state
 and all events of `m` consecutive `next` calls.
 -/
-import KotoVerif.Lemmas.C13Peek
+import KotoVerif.Lemmas.C13Trace
 
 namespace KotoVerif.C13
 open KotoVerif KotoVerif.Iter
@@ -255,29 +255,27 @@ theorem chain_pulls_b_late (a b : Co) (sa : a.σ) (sb : b.σ) (h : (a.next sa).o
 example : ((chainCo (genCo 0 [Val.int 1]) (genCo 1 [Val.int 2])).next (some (0, false), (0, false))).ev
     = [Ev.pull 0 0] := rfl
 
-/-- **pulls_in_order (sources).** `m` consecutive calls on a generator / an `@next` object that still
+/-- **exact pull sequence of the logging sources.** `m` consecutive calls on a generator / an `@next` object that still
 has `m` elements log exactly `pull i, pull (i+1), …, pull (i+m-1)`: one element at a time, in order. -/
-theorem pulls_in_order_gen (k : Nat) (xs : List Val) (m i : Nat) (h : i + m ≤ xs.length) :
+theorem source_pulls_gen (k : Nat) (xs : List Val) (m i : Nat) (h : i + m ≤ xs.length) :
     (pullN (genCo k xs) m (i, false)).2 = (List.range m).map (fun j => Ev.pull k (i + j)) :=
   (gen_pulls k xs m i h).1
 
-theorem pulls_in_order_obj (k : Nat) (xs : List Val) (m i : Nat) (h : i + m ≤ xs.length) :
+theorem source_pulls_obj (k : Nat) (xs : List Val) (m i : Nat) (h : i + m ≤ xs.length) :
     (pullN (metaCo k xs) m i).2 = (List.range m).map (fun j => Ev.pull k (i + j)) :=
   (obj_pulls k xs m i h).1
 
 example : (pullN (genCo 7 [Val.int 1, Val.int 2, Val.int 3]) 2 (1, false)).2 = [Ev.pull 7 1, Ev.pull 7 2] :=
-  pulls_in_order_gen 7 _ 2 1 (by simp)
+  source_pulls_gen 7 _ 2 1 (by simp)
 
 example : (pullN (metaCo 7 [Val.int 1, Val.int 2, Val.int 3]) 3 (0 : Nat)).2
     = [Ev.pull 7 0, Ev.pull 7 1, Ev.pull 7 2] :=
-  pulls_in_order_obj 7 _ 3 0 (by simp)
+  source_pulls_obj 7 _ 3 0 (by simp)
 
-/-- **pulls_in_order (through `take`).** However often `take k` over a generator is called, the
-generator is asked for `0, 1, …, min m k - 1`, in this order and nothing else
-(`k ≤` number of elements). Partial: the general statement for *every* pipeline (a simulation
-lemma per adaptor: each call is a sequence of input calls) is not proved; the correspondence harness
-checks the order clause on every generated case instead. -/
-theorem pulls_in_order_take_partial (k : Nat) (xs : List Val) (m n : Nat) (h : n ≤ xs.length) :
+/-- **exact pull sequence through `take`.** However often `take k` over a generator is called, the
+generator is asked for `0, 1, …, min m k - 1`, in this order and nothing else (`k ≤` number of
+elements). -/
+theorem pulls_exact_through_take (k : Nat) (xs : List Val) (m n : Nat) (h : n ≤ xs.length) :
     (pullN (takeCo (genCo k xs)) m ((0, false), n)).2 =
       (List.range (min m n)).map (fun j => Ev.pull k j) := by
   have h1 := take_calls (genCo k xs) m (0, false) n
@@ -287,6 +285,56 @@ theorem pulls_in_order_take_partial (k : Nat) (xs : List Val) (m n : Nat) (h : n
 
 example : (pullN (takeCo (genCo 0 [Val.int 1, Val.int 2, Val.int 3])) 9 ((0, false), 2)).2
     = [Ev.pull 0 0, Ev.pull 0 1] := rfl
+
+/-- **pulls_in_order.** For *every* pipeline (any adaptors, `chain`/`zip` included, any parameters) and
+*every* sequence of `next` / `next_back` calls on it, the source events of the trace (pulls, `done`;
+callback events removed) are a run of the pipeline's source — for `chain` / `zip` an interleaving of
+runs of the two sides' sources (`SrcTr`). Adaptors never touch a source except through its own
+`next` / `next_back`, one call at a time: each adaptor call is a sequence of calls on its input
+(simulation lemmas `each_sim … peekable_sim`, `chain_sim2`, `zip_sim2`). -/
+theorem pulls_in_order (fuel : Nat) (p : Pipe) (ds : List Bool) :
+    SrcTr p (strip (runD (build fuel p).c ds (build fuel p).s).2) := pipe_trace fuel p ds
+
+example : SrcTr (.zip (.take 1 (.src (.gen 0 [Val.int 1, Val.int 2]))) (.windows 2 (.src (.obj 1 [Val.int 3]))))
+    (strip (runD (build 8 (.zip (.take 1 (.src (.gen 0 [Val.int 1, Val.int 2])))
+      (.windows 2 (.src (.obj 1 [Val.int 3]))))).c [true, true, false]
+      (build 8 (.zip (.take 1 (.src (.gen 0 [Val.int 1, Val.int 2]))) (.windows 2 (.src (.obj 1 [Val.int 3]))))).s).2) :=
+  pulls_in_order 8 _ _
+
+/-- **pulls_in_order (generator).** For every pipeline without `chain`/`zip` over a generator and every
+call sequence, the generator's events are `pull 0, pull 1, pull 2, …` — one element at a time, in
+order, nothing skipped or repeated —, optionally ended by `done` (`GenOrd`). -/
+theorem pulls_in_order_generator (fuel : Nat) (p : Pipe) (k : Nat) (xs : List Val)
+    (h : p.root = some (.gen k xs)) (ds : List Bool) :
+    GenOrd k xs.length 0 (strip (runD (build fuel p).c ds (build fuel p).s).2) := by
+  obtain ⟨ds', he⟩ := srcTr_root p _ _ h (pipe_trace fuel p ds)
+  rw [he]
+  have h1 : GenOrd k xs.length 0 (runD (genCo k xs) ds' ((0 : Nat), false)).2 :=
+    gen_ordered k xs ds' (0, false)
+  show GenOrd k xs.length 0 (strip (runD (genCo k xs) ds' ((0 : Nat), false)).2)
+  rw [genOrd_strip h1]
+  exact h1
+
+example : GenOrd 0 3 0 (strip (runD (build 8 (.windows 2 (.keep .even (.step 2 (.src (.gen 0 [Val.int 1, Val.int 2, Val.int 3])))))).c
+      [true, true] (build 8 (.windows 2 (.keep .even (.step 2 (.src (.gen 0 [Val.int 1, Val.int 2, Val.int 3])))))).s).2) :=
+  pulls_in_order_generator 8 _ 0 [Val.int 1, Val.int 2, Val.int 3] rfl _
+
+/-- **pulls_in_order (`@next` object).** The same for an object with `@next` (which logs every call):
+the index it is asked for advances by exactly one per call while there are elements and stays at the
+length afterwards (`ObjOrd`). -/
+theorem pulls_in_order_object (fuel : Nat) (p : Pipe) (k : Nat) (xs : List Val)
+    (h : p.root = some (.obj k xs)) (ds : List Bool) :
+    ObjOrd k xs.length 0 (strip (runD (build fuel p).c ds (build fuel p).s).2) := by
+  obtain ⟨ds', he⟩ := srcTr_root p _ _ h (pipe_trace fuel p ds)
+  rw [he]
+  have h1 : ObjOrd k xs.length 0 (runD (metaCo k xs) ds' (0 : Nat)).2 := obj_ordered k xs ds' 0
+  show ObjOrd k xs.length 0 (strip (runD (metaCo k xs) ds' (0 : Nat)).2)
+  rw [objOrd_strip h1]
+  exact h1
+
+example : ObjOrd 1 2 0 (strip (runD (build 8 (.cycle (.src (.obj 1 [Val.int 1, Val.int 2])))).c
+      [true, true, true, true] (build 8 (.cycle (.src (.obj 1 [Val.int 1, Val.int 2])))).s).2) :=
+  pulls_in_order_object 8 _ 1 [Val.int 1, Val.int 2] rfl _
 
 /-! ## consumers -/
 
